@@ -90,7 +90,10 @@ contract(STQ + "arbitrary_statement.emit", props=["C02"], params=dict(self=RefOf
 # ---- str(type): a pure function of the (immutable) type object ----------------------------------------------------
 uninterpreted("type_str", [Ref], Str)
 contract("verif.TypeText.__str__", virtual=True, assumed=True, params=dict(self=TERM), result=Str,
-         only_in=["func_adl_xAOD.common.statement.block.emit", "func_adl_xAOD.common.generated_code.generated_code.class_declaration_code"],
+         only_in=["func_adl_xAOD.common.statement.block.emit", "func_adl_xAOD.common.generated_code.generated_code.class_declaration_code",
+                  "func_adl_xAOD.atlas.xaod.event_collections.atlas_event_collection_coder.get_running_code",
+                  "func_adl_xAOD.cms.aod.event_collections.cms_event_collection_coder.get_running_code",
+                  "func_adl_xAOD.cms.miniaod.event_collections.cms_event_collection_coder.get_running_code"],
          ensures=["result == type_str(self)"],
          note="DEFINITION of the ghost function type_str: str(t) of a type object (terminal and its subclasses override __str__; "
               "type objects are never mutated after construction except through a copy)")
